@@ -1,16 +1,24 @@
 /* C06: the convention of the %p call of print_i in __printf.  Include AFTER igris/util/printf_impl.c.
  *   unrepaired code:  print_i(value, 0, width, 2*sizeof(void*)+2, ops | '#' | '0', 16) -- the "precision" includes the
  *                     two characters of 0x because print_i subtracts the prefix length from it (finding
- *                     C06_prec_minus_prefix);
+ *                     C06_prec_minus_prefix), and the forced '0' flag never acts because that precision always
+ *                     exceeds the 16 digits a pointer can have;
  *   after proposed_fixes/C06_prec_minus_prefix.patch the precision is the number of digits, named PRINT_P_DIGITS
- *   by that patch; the presence of the macro selects the form.
- * The contracts (c06_print_contracts.h, c06_check_contracts.h) read the value from g_c06_p_minlen. */
+ *   by that patch, '#' is forced and '0' is cleared; the presence of the macro selects the form.
+ * The contracts (c06_print_contracts.h, c06_check_contracts.h) read the form from the three globals below. */
 #ifndef C06_PFORM_H
 #define C06_PFORM_H
 #ifdef PRINT_P_DIGITS
 #define C06_P_MINLEN ((int)(PRINT_P_DIGITS))
+#define C06_P_OPS_SET (OPS_FLAG_WITH_SPEC)
+#define C06_P_OPS_CLR (OPS_FLAG_ZERO_PAD)
 #else
 #define C06_P_MINLEN ((int)(2 * sizeof(void *) + 2))
+#define C06_P_OPS_SET (OPS_FLAG_WITH_SPEC | OPS_FLAG_ZERO_PAD)
+#define C06_P_OPS_CLR 0u
 #endif
+/* the ops word print_i receives for %p when the directive carries the flags `ops` */
+#define C06_P_OPS(ops) ((((ops) | C06_P_OPS_SET)) & ~C06_P_OPS_CLR)
 int g_c06_p_minlen = C06_P_MINLEN;
+unsigned g_c06_p_set = C06_P_OPS_SET, g_c06_p_clr = C06_P_OPS_CLR;
 #endif
